@@ -8,6 +8,7 @@ import weakref
 import dask
 import numpy as np
 
+from vf import gen as G
 from vf import sched
 from vf.common import exc_site, h64, short_tb
 from vf.gen import OPS, Prog, ReplayRefused, Skip
@@ -269,8 +270,19 @@ def exercise(g, ctx, problems, witness, rng):
 
 def run_family(steps, variants, ctx, rng):
     problems = []
+    if G.RO_BASES is None:
+        G.RO_BASES = []
     g = Prog.replay(steps)
     exercise(g, ctx, problems, {"steps": steps}, rng)
+    # the user edits the buffers whose read-only views were handed to from_array, then builds the same program again from
+    # fresh data: the names are the same, so the arrays must be (the live nodes must not have followed the edit)
+    edited = G.edit_ro_bases()
+    G.RO_BASES = None
+    if edited:
+        ctx.count("source_buffers_edited_after_build", edited)
+        g_again = Prog.replay(steps)
+        exercise(g_again, ctx, problems, {"steps": steps, "after_source_edit": True}, rng)
+        exercise(g, ctx, problems, {"steps": steps, "recomputed_after_source_edit": True}, rng)
     for vsteps, info in variants:
         g2, remap = build_lenient(vsteps)
         if info is not None:
@@ -296,6 +308,7 @@ def run_family(steps, variants, ctx, rng):
 
 def run_one(rng, ctx):
     big = ctx.tier == "thorough"
+    G.RO_BASES = []  # from the first build on: the node that survives de-duplication is the first one built
     g = Prog(rng, max_extent=rng.choice([7, 9]) if big else 7, max_size=3000, weights=WEIGHTS)
     g.grow(rng.randint(2, 8 if big else 6))
     tally_prog(g, ctx)
